@@ -88,6 +88,9 @@ func H_c08(p []int) {
 		shape = 9
 	}
 	vSite(fmt.Sprintf("container=%d dir=%q", ck, d))
+	if len(p) > 3 && p[3] > 0 {
+		c12History(p[3]-1, "h") // an unrelated earlier call (recycled printers)
+	}
 	r := vRedactable(shape)
 	out := []byte(redact.Sprintf(d, containerOf(ck, r), 3))
 	vObserve("out", out)
@@ -165,6 +168,21 @@ func H_c08j(p []int) {
 	case 10:
 		out = []byte(redact.Join("", []redact.RedactableString{rs1, rs2, rs1}))
 		want = cat(r1, r2, r1)
+	case 12:
+		// a nested wrapper earlier in the same call
+		out = []byte(redact.Sprint(redact.Unsafe(redact.Safe("w")), rs1, redact.Safe(redact.Safe("v")), rs2))
+		want = cat([]byte("‹w›"), r1, []byte("v"), r2)
+	case 13:
+		// SortStrings orders the slice bytewise and keeps its elements
+		l := []redact.RedactableString{rs1, rs2, rs1}
+		redact.SortStrings(l)
+		vAssert(string(l[0]) <= string(l[1]) && string(l[1]) <= string(l[2]), "C08/sortstrings-sorted")
+		out = []byte(redact.Join("|", l))
+		if string(rs1) <= string(rs2) {
+			want = cat(r1, []byte("|"), r1, []byte("|"), r2)
+		} else {
+			want = cat(r2, []byte("|"), r1, []byte("|"), r1)
+		}
 	case 11:
 		// delimiter of byte-slice kind next to byte-slice elements
 		var b redact.StringBuilder
